@@ -287,4 +287,57 @@ func runC31(c *Ctx) {
 			fmt.Sprintf("a writer can start past chunk 0 (%s): an update then leaves the entry's earlier chunks in place - the entry decodes as old values followed by the new ones, and Encoder.Close only trims chunks after the last one written", strings.Join(bad, "; ")), nil)
 	}
 
+	r5 := c.Rule("R5", "cursor typestate: RemoveCurrentItem leaves the B-tree cursor unset, so in package streamingdata no cursor-relative call (Next, Previous, GetCurrentKey, GetCurrentValue, GetCurrentItem, RemoveCurrentItem, UpdateCurrentItem, UpdateCurrentValue) is reachable after it without a positioning call (Find, FindWithID, First, Last) in between - Encoder.Close relies on this when it removes an entry's leftover chunks one search at a time", 1)
+	{
+		bi := "btree.BtreeInterface."
+		removeK := bi + "RemoveCurrentItem"
+		rel := map[string]bool{}
+		for _, m := range []string{"Next", "Previous", "GetCurrentKey", "GetCurrentValue", "GetCurrentItem", "RemoveCurrentItem", "UpdateCurrentItem", "UpdateCurrentValue", "UpdateCurrentKey"} {
+			rel[bi+m] = true
+		}
+		pos := map[string]bool{}
+		for _, m := range []string{"Find", "FindWithID", "First", "Last", "FindInDescendingOrder"} {
+			pos[bi+m] = true
+		}
+		nRm := 0
+		for _, f := range w.declaredFuncs("streamingdata") {
+			g := w.G(f)
+			rms := g.Find(calls(removeK))
+			if len(rms) == 0 {
+				continue
+			}
+			c.Analysed(f)
+			for _, rm := range rms {
+				nRm++
+				isPos := func(n *GNode) bool {
+					for _, cs := range n.Calls {
+						if pos[cs.Key] {
+							return true
+						}
+					}
+					return false
+				}
+				var starts []int
+				for _, e := range rm.Succs {
+					starts = append(starts, e.To)
+				}
+				r := g.Reach(starts, isPos, nil)
+				var offs []Offence
+				for _, n := range g.Nodes {
+					if !r.Seen[n.ID] || isPos(n) {
+						continue
+					}
+					for _, cs := range n.Calls {
+						if rel[cs.Key] {
+							offs = append(offs, Offence{n, r.Path(n.ID)})
+						}
+					}
+				}
+				c.Offences(g, offs, r5, fmt.Sprintf("%s: the cursor is re-positioned after RemoveCurrentItem #%d before it is used", shortKey(f.Key), nRm), rm.Ast.Pos(), "Find/First/Last precedes every cursor-relative call after the removal",
+					"a cursor-relative call follows RemoveCurrentItem without a positioning call: the removal unsets the cursor, so Next reports the end of the tree - an update that shrinks an entry by two or more chunks removes only the first leftover chunk and leaves the rest (stale chunks of the same key, wrong Count)")
+			}
+		}
+		c.Check(nRm >= 1, r5, "RemoveCurrentItem sites in streamingdata inventoried", token.NoPos, fmt.Sprintf("%d", nRm), "none found", nil)
+	}
+
 }
